@@ -218,7 +218,7 @@ def shrink(plan, candidates_fn, still_fails, max_execs=120, wall=90):
 
 
 def write_replay(prop, plan, signature, found_by, minimised, shrink_execs):
-    d = os.path.join(VERIF_DIR, 'replays')
+    d = os.environ.get('VERIF_REPLAY_DIR') or os.path.join(VERIF_DIR, 'replays')
     os.makedirs(d, exist_ok=True)
     body = {'property': prop, 'plan': plan, 'signature': signature, 'minimised': minimised,
             'shrink_execs': shrink_execs, 'found_by': found_by, 'repo_hash': repo_hash()}
@@ -231,7 +231,7 @@ def write_replay(prop, plan, signature, found_by, minimised, shrink_execs):
 # ----------------------------------------------------------------------------
 # evidence
 def write_evidence(prop, tier, seed, level, coverage, wall_s, violations, assumptions, extra=None):
-    d = os.path.join(VERIF_DIR, 'evidence')
+    d = os.environ.get('VERIF_EVIDENCE_DIR') or os.path.join(VERIF_DIR, 'evidence')
     os.makedirs(d, exist_ok=True)
     ev = {'property_id': prop, 'tier': tier, 'seed': seed, 'level': level, 'coverage': coverage,
           'assumptions': assumptions, 'wall_s': round(wall_s, 2), 'violations': violations}
